@@ -318,7 +318,7 @@ func c12(c *core.Ctx) {
 
 		return
 	}
-	c.Section("many-in-flight", c.N(300, 6000), func(i int64, r *gen.Rand) {
+	c.Section("many-in-flight", c.N(300, 30000), func(i int64, r *gen.Rand) {
 		n := r.PickInt([]int{1, 2, 3, 10, 50, 1 + r.Intn(100), 100 + r.Intn(401), 500})
 		c12Many(c, r, n, i%2 == 0)
 		c.Distinct(r.U64())
@@ -326,11 +326,11 @@ func c12(c *core.Ctx) {
 			c.Sample(map[string]interface{}{"section": "many-in-flight", "transactions": n, "fallback_handler": i%2 == 0})
 		}
 	})
-	c.Section("sequential-churn", c.N(16, 500), func(_ int64, r *gen.Rand) {
+	c.Section("sequential-churn", c.N(16, 3000), func(_ int64, r *gen.Rand) {
 		c12Churn(c, r, 2000)
 		c.Distinct(r.U64())
 	})
-	depth := int(c.N(4, 5))
+	depth := int(c.N(4, 6))
 	prefixes := historyPrefixes(3)
 	c.Section("histories", int64(len(prefixes)), func(i int64, _ *gen.Rand) {
 		st := newSeqStats()
